@@ -185,7 +185,30 @@ pub fn near_miss_types() -> Vec<Ty> {
     ]
 }
 
-const FOREIGN: [&str; 10] = ["description", "Name", "chainid", "salt ", "", "NAME", "chain_id", "verifyingcontract", "version2", " name"];
+const FOREIGN: [&str; 20] = [
+    "description",
+    "Name",
+    "chainid",
+    "salt ",
+    "",
+    "NAME",
+    "chain_id",
+    "verifyingcontract",
+    "version2",
+    " name",
+    // names that embed the text of type-string syntax (an implementation that checks the rendered
+    // encodeType string instead of the member list can be fooled by them)
+    "name,string version",
+    "chainId,address verifyingContract",
+    "version,uint256 chainId",
+    "name)",
+    "(name",
+    "name string",
+    "version,",
+    ",",
+    "salt)EIP712Domain(string name",
+    "name\u{0}",
+];
 
 fn enumerate(seed: u64) -> Vec<Case> {
     let std = standard_domain_fields();
@@ -298,8 +321,55 @@ fn gen_mixture(tape: Vec<u8>) -> Case {
     build(Some(&ms), variant, "mixture", u.u64())
 }
 
+// ---------------------------------------------------------------- CLI sample
+
+fn judge_cli(c: &Case, cls: &mut Classifier) -> Verdict {
+    use crate::cli::Invocation;
+    let well = c.members.as_deref().map(domain_well_formed).unwrap_or(false);
+    let root = crate::cli::global_root();
+    let phrase = crate::refimpl::bip39::encode_phrase(&[0x21u8; 16]);
+    let file = crate::cli::temp_file(&root, c.doc.as_bytes());
+    let f = file.to_string_lossy().to_string();
+    let shown: Vec<String> = c.members.as_deref().unwrap_or(&[]).iter().map(|(n, t)| format!("{} {}", t.name(), n)).collect();
+    let expected = c.model.as_ref().and_then(td::expected);
+    let runs: [(Invocation, Option<[u8; 32]>); 4] = [
+        (Invocation::new(&["hash", "typeddata", &f]), expected.map(|e| e.2)),
+        (Invocation::new(&["hash", "typeddata", "--message-hash", &f]), expected.map(|e| e.1)),
+        (Invocation::new(&["hash", "typeddata", "-m", "-"]).stdin(c.doc.as_bytes()), expected.map(|e| e.1)),
+        (Invocation::new(&["sign", "--mnemonic", &phrase, "typeddata", &f]), None),
+    ];
+    for (inv, want) in runs {
+        let Some(out) = crate::cli::run_global(&inv) else { return fail("cli", "not configured", "CLI not available") };
+        if out.timed_out {
+            cls.label("timed-out");
+            continue;
+        }
+        let cmd = inv.args.iter().take(4).cloned().collect::<Vec<_>>().join(" ");
+        if well && c.variant != "malformed-message" {
+            if !out.ok() {
+                return fail("success", out.describe(), format!("`hdwallet {cmd}` on a document with the well-formed domain type EIP712Domain({})", shown.join(",")));
+            }
+            if let Some(w) = want {
+                if out.stdout_str().trim_end() != format!("0x{}", hex_lower(&w)) {
+                    return fail(format!("0x{}", hex_lower(&w)), out.describe(), format!("`hdwallet {cmd}` digest for EIP712Domain({})", shown.join(",")));
+                }
+            }
+        } else if !out.ordinary_error() || !out.stdout.is_empty() {
+            return fail(
+                "error exit with empty stdout",
+                out.describe(),
+                format!("`hdwallet {cmd}` on a document whose domain type EIP712Domain({}) is {} [{} / {}]", shown.join(","), if well { "well-formed but whose message is malformed" } else { "ill-formed" }, c.family, c.variant),
+            );
+        }
+    }
+    let _ = std::fs::remove_file(file);
+    cls.label(if well { "cli-well-formed" } else { "cli-ill-formed" });
+    cls.nontrivial(&(c.doc.as_str(), "cli"));
+    Ok(())
+}
+
 pub fn run(ctx: &mut Ctx) {
-    ctx.rule = "EIP712Domain member lists: (i) all 326 duplicate-free orderings of subsets of the five standard fields, each with a valid message, a malformed message and with EIP712Domain as primaryType; (ii) all 3905 sequences of length 1..5 over the five names with repetition; (iii) each of the 31 well-formed domains with one field's type replaced by each of 32 near-miss types (17 other EIP-712 types and 15 raw type strings such as uint, int, String, 'bytes32 ', uint0256); (iv) a foreign field (10 names) inserted at every position of each well-formed domain; (v) no EIP712Domain entry; (vi) generated mixtures. Domain values are generated to match the declared members so the domain type is the only variable. Oracle: truth table accepted <=> non-empty, standard (name,type) pairs, no repeats, standard relative order; accepted documents must hash to the reference domain separator/digest; refused ones are Err whatever the message is. Non-trivial: all; distinct by document.".into();
+    ctx.rule = "EIP712Domain member lists: (i) all 326 duplicate-free orderings of subsets of the five standard fields, each with a valid message, a malformed message and with EIP712Domain as primaryType; (ii) all 3905 sequences of length 1..5 over the five names with repetition; (iii) each of the 31 well-formed domains with one field's type replaced by each of 32 near-miss types (17 other EIP-712 types and 15 raw type strings such as uint, int, String, 'bytes32 ', uint0256); (iv) a foreign field (20 names, incl. names embedding type-string syntax such as 'name,string version') inserted at every position of each well-formed domain; (v) no EIP712Domain entry; (vi) generated mixtures. Domain values are generated to match the declared members so the domain type is the only variable. Oracle: truth table accepted <=> non-empty, standard (name,type) pairs, no repeats, standard relative order; accepted documents must hash to the reference domain separator/digest; refused ones are Err whatever the message is; a CLI sample runs `hash typeddata`, `hash typeddata --message-hash` (file and stdin) and `sign typeddata` on every well-formed domain and a stride of the ill-formed ones: all commands must apply the same rule (digests equal the reference / error exit with empty stdout). Non-trivial: all; distinct by document.".into();
     ctx.assumptions = vec![];
     ctx.replay_known_and_regressions(&replay);
     let cases = enumerate(ctx.seed);
@@ -307,6 +377,19 @@ pub fn run(ctx: &mut Ctx) {
     ctx.exhaustive_parts.push("326 orderings; 3905 sequences with repetition; 31 x fields x 32 type substitutions; foreign field at every position; missing domain type".into());
     let n = ctx.tier.pick(50_000, 500_000);
     ctx.run_prop("mixture", n, || crate::gen::tape(300).prop_map(gen_mixture), judge);
+    // CLI sample: every command that reads typed data must apply the same domain-type rule
+    if crate::cli::global_cli().is_some() {
+        let step = ctx.tier.pick(37, 5);
+        let sample: Vec<Case> = cases.iter().enumerate().filter(|(i, c)| i % step == 0 || (c.family == "orderings" && c.model.is_some() && c.variant == "valid")).map(|(_, c)| c.clone()).collect();
+        ctx.run_cases("cli", &sample, judge_cli);
+        if ctx.cls.count("timed-out") > 0 {
+            ctx.inconclusive("CLI watchdog expired");
+        }
+        ctx.floor_abs("cli-well-formed", 31);
+        ctx.floor_abs("cli-ill-formed", 150);
+    } else {
+        ctx.inconclusive("CLI executable not available for the domain-type CLI sample");
+    }
     ctx.floor_abs("accepted-well-formed", 31 * 2);
     ctx.floor_abs("refused-ill-formed", 4000);
     ctx.floor_abs("well-formed-domain-malformed-message", 31);
@@ -316,6 +399,7 @@ pub fn run(ctx: &mut Ctx) {
 pub fn replay(sub: &str, case: &Value) -> Option<Verdict> {
     match sub {
         "enumerated" | "mixture" => Some(replay_as::<Case>(case, judge)),
+        "cli" => Some(replay_as::<Case>(case, judge_cli)),
         _ => None,
     }
 }
